@@ -208,6 +208,8 @@ V("v_rawcel_validate", "validate", "RawCel::validate: Ok => header and user data
   ["cel::RawCel::validate", "cel::ImageContent::validate", "tilemap::TilemapData::max_tile_id", "tileset::Tileset::tile_count"], fn="RawCel::validate", witness="x_usable_after_load")
 V("v_imagecontent_validate", "validate", "ImageContent::validate: size unchanged, pixels per RawPixels::validate", ["cel::ImageContent::validate"], fn="ImageContent::validate")
 V("v_layersdata_validate", "validate", "LayersData::validate: Ok iff every tilemap layer references a tileset that exists (so write_cel's 'missing tileset' expect is unreachable)", ["layer::LayersData::validate"], fn="LayersData::validate", witness="x_usable_after_load")
+V("v_tilesets_validate", "validate_tilesets", "TilesetsById::validate for EVERY tileset table: Ok => the same tileset ids survive; each has its pixels embedded (a tileset without embedded pixels is refused) and validated (same data; indexed pixels all in the palette); id, tile count, tile size, base index, name and external reference unchanged",
+  ["tileset::TilesetsById::validate"], fn="TilesetsById::validate", witness=["x_refusals", "x_usable_after_load"])
 V("v_tilemap_tile", "tilemap", "TilemapData::tile(x,y) == Some(tiles[y*w+x]) iff x<w && y<h (given tiles.len()==w*h), for all u16 coordinates",
   ["tilemap::TilemapData::tile", "tilemap::TilemapData::width", "tilemap::TilemapData::height"], fn="tile", witness="x_tilemap_views")
 V("v_tile_slice", "tilemap", "tile_slice(pixels, size, id) == pixels[id*area .. (id+1)*area] under (id+1)*area <= len; no overflow", ["file::tile_slice"], fn="tile_slice", witness="x_tilemap_views")
@@ -232,8 +234,8 @@ for _f, _c in (("add_layer", "pushes the layer, context = that layer's index, no
 V("v_parse_frame", "userdata", "parse_frame (the per-frame chunk dispatch) for EVERY chunk sequence: frame magic checked, duration stored for this frame, chunk count taken from the new field unless it is 0, and the attachment context / layer count / slice count evolve exactly by the C10 rule per chunk kind (layer, cel, slice, tags only in frame 0, legacy palette -> sprite, user data advances a tag context; ignorable chunks, colour profile, new palette, external files, tilesets leave it untouched)",
   ["parse::parse_frame"], fn="parse_frame", witness="x_userdata_exhaustive")
 V("v_read_aseprite", "header", "read_aseprite: Ok => the 128-byte header is present with magic 0xA5E0 and the sprite reports frames / width / height / pixel format (incl. transparent index) exactly as stored at offsets 6/8/10/12/28, one frame-time slot per frame; a pixel ratio other than 1:1 (both components non-zero) and colour depths other than 8/16/32 are refused; every parse_frame call has a slot for its frame",
-  ["parse::read_aseprite"], fn="read_aseprite", witness="x_roundtrip_structure")
-V("v_parse_pixel_format", "header", "parse_pixel_format: Ok iff depth in {8,16,32}; indexed keeps the transparent index", ["parse::parse_pixel_format"], fn="parse_pixel_format")
+  ["parse::read_aseprite"], fn="read_aseprite", witness=["x_refusals", "x_roundtrip_structure"])
+V("v_parse_pixel_format", "header", "parse_pixel_format: Ok iff depth in {8,16,32}; indexed keeps the transparent index", ["parse::parse_pixel_format"], fn="parse_pixel_format", witness="x_refusals")
 V("v_indexed_as_rgba", "pixels", "Indexed::as_rgba for ALL indices / palettes: None iff the index is absent; else the palette colour with alpha 0 iff the index is the transparent index and the layer is not a background layer",
   ["pixel::Indexed::as_rgba", "palette::ColorPaletteEntry::red", "palette::ColorPaletteEntry::green", "palette::ColorPaletteEntry::blue", "palette::ColorPaletteEntry::alpha"], fn="as_rgba", witness="x_frames_vs_spec")
 V("v_gray_into_rgba", "pixels", "Grayscale (v,a) -> (v,v,v,a)", ["pixel::Grayscale::into_rgba"], fn="into_rgba", witness="x_frames_vs_spec")
@@ -345,7 +347,7 @@ prop("C03", "proof", BLEND_LEAVES + BLEND_WRAPPERS + ["k_parse_blend_mode", "x_m
 prop("C04", "proof", VDEC_IDS + ["v_compute_parents", "v_from_vec", "k_check_chunk_bytes", "k_scale_6bit", "k_parse_chunk_type", "k_parse_pixel_format"] + LAYER_DEC + TAGS_DEC + SLICE_DEC + PAL_DEC + EXT_DEC
      + TS_DEC + CEL_DEC + UD_DEC + CP_DEC + READER + ["k_tilemap_bits", "k_tile_parse", "k_cels_table", "v_read_aseprite", "v_parse_frame", "v_ud_set_tag_user_data", "v_ud_add_user_data", "v_ud_add_cel", "v_cel_mut", "x_decoder_contracts", "x_total_load"],
      "Totality contracts: every Kani decoder harness also discharges the automatic no-panic / no-overflow / in-bounds checks for all contents of its payload size; Verus proves compute_parents and that from_vec establishes its precondition. Whole-load totality (glue, zlib, stack depth, allocation) is fault enumeration in an isolated child process.", level_note_extra="fault enumeration for the composition")
-prop("C05", "proof", ["v_celsdata_validate", "v_rawcel_validate", "v_imagecontent_validate", "v_layersdata_validate", "v_write_cel", "v_frame_image", "v_layer_image", "v_validate_indexed", "v_rawpixels_validate", "v_indexed_as_rgba", "v_dec_tilemap", "v_dec_tileset", "v_write_raw_cel", "v_write_tilemap_cel", "v_tile_slice", "v_tilemap_tile", "v_tilemap_lookup", "v_tile_offsets", "v_is_visible", "v_pixels_per_tile", "k_validate_indexed", "k_indexed_as_rgba", "k_tileset_head_34", "k_tileset_head_44", "x_usable_after_load"],
+prop("C05", "proof", ["v_tilesets_validate", "v_celsdata_validate", "v_rawcel_validate", "v_imagecontent_validate", "v_layersdata_validate", "v_write_cel", "v_frame_image", "v_layer_image", "v_validate_indexed", "v_rawpixels_validate", "v_indexed_as_rgba", "v_dec_tilemap", "v_dec_tileset", "v_write_raw_cel", "v_write_tilemap_cel", "v_tile_slice", "v_tilemap_tile", "v_tilemap_lookup", "v_tile_offsets", "v_is_visible", "v_pixels_per_tile", "k_validate_indexed", "k_indexed_as_rgba", "k_tileset_head_34", "k_tileset_head_44", "x_usable_after_load"],
      "Assume/guarantee: the renderers are proved panic-free under explicit preconditions R-pre (Verus, unbounded); that validation establishes R-pre for everything that loads is checked by fault enumeration: every loadable corrupted file is driven through every accessor.")
 prop("C06", "proof", ["v_indexed_as_rgba", "v_gray_into_rgba", "v_is_background", "v_rawpixels_validate", "v_dec_cel", "v_dec_cel_content", "v_dec_cel_common", "v_dec_image_size", "v_pixel_count", "v_cel_is_empty", "v_cel_frame", "v_cel_layer", "v_celsdata_cel"] + PIX + ["k_cel_chunk_15", "k_cel_chunk_17", "k_cel_chunk_18", "k_cel_raw_rgba_28", "k_cel_raw_gray_24", "k_cel_raw_indexed_23", "v_write_raw_cel", "x_frames_vs_spec", "x_roundtrip_structure", "x_neutral_encodings"],
      "Pixel conversions proved for all values; cel header / raw payload decode on fixed sizes; placement + alpha scaling is the Verus rasteriser contract; zlib storage, linked cels and the transparent-index rule end-to-end are bounded-exec against the composition spec.")
@@ -363,7 +365,7 @@ prop("C13", "exploration", READER + ["k_check_chunk_bytes", "v_check_chunk_bytes
      "Reader primitives return an error value whenever fewer bytes remain than the field needs (contract, every position of a fixed-size cursor); that declared counts drive the reads is glue: every cut offset of generated and corpus files is executed.")
 prop("C14", "exploration", ["k_error_mapping", "k_reader_prims_6", "k_reader_sequence", "x_readers"],
      "Error mapping (io::Error -> IoError, source()) is a Kani contract; independence of reader behaviour is bounded-exec with scripted readers (short reads, Interrupted, BufReader, files) and a hard error of 6 kinds injected at byte offsets.")
-prop("C15", "proof", ["v_read_aseprite", "v_parse_pixel_format", "v_dec_colorprofile", "v_dec_cp_type", "v_dec_tilemap", "v_dec_cel_content", "v_dec_layer_type", "v_dec_blend_mode", "v_dec_anim_dir", "v_dec_layer", "v_dec_tags", "k_parse_pixel_format", "k_parse_layer_type", "k_parse_blend_mode", "k_parse_animation_direction", "k_parse_chunk_type", "k_cel_chunk_18", "k_cel_chunk_17", "k_tilemap_bits"] + CP_DEC + ["x_decoder_contracts", "x_refusals"],
+prop("C15", "proof", ["v_tilesets_validate", "v_read_aseprite", "v_parse_pixel_format", "v_dec_colorprofile", "v_dec_cp_type", "v_dec_tilemap", "v_dec_cel_content", "v_dec_layer_type", "v_dec_blend_mode", "v_dec_anim_dir", "v_dec_layer", "v_dec_tags", "k_parse_pixel_format", "k_parse_layer_type", "k_parse_blend_mode", "k_parse_animation_direction", "k_parse_chunk_type", "k_cel_chunk_18", "k_cel_chunk_17", "k_tilemap_bits"] + CP_DEC + ["x_decoder_contracts", "x_refusals"],
      "Every refusal that is a branch of a contracted function is proved over the whole code domain (colour depth, layer type, blend mode, animation direction, cel type, chunk type, colour profile type/flags, bits per tile); the pixel-ratio rule and 'tileset without pixels' sit in glue and are bounded-exec at every position.")
 prop("C16", "other", ["s_send_sync", "x_determinism", "x_total_load", "v_check_chunk_bytes", "v_read_aseprite", "v_parse_frame", "v_celsdata_validate", "v_frame_image", "v_write_raw_cel", "v_write_tilemap_cel", "v_tile_slice", "v_pixels_per_tile", "v_compute_parents", "k_mul_un8", "k_blend8", "k_merge", "k_normal_r", "k_normal_g", "k_normal_b", "k_pixel_count", "k_pixels_per_tile"],
      "(a) Send + Sync: discharged by rustc's trait solver. (b) no result depends on wrapping arithmetic: the overflow obligations of the Verus units (unbounded) and of the Kani blend leaves. (c) determinism / repeat / permute / 16 threads: sanity stand-in only - interleavings are NOT explored (Kani has no threads; Verus would need its permission types in the real code); the schedule quantifier rests on Rust's Sync + &self guarantee.")
